@@ -17,10 +17,11 @@
 (*              (cli.py refresh_impl) uses to skip a candidate as already done.*)
 (*                                                                             *)
 (* The operating system chooses the order of both directory listings anew in   *)
-(* every run.  Crash (the process dies), Fail (put_item raises) and Refuse (the *)
-(* store cannot create the destination file) can happen before, during and     *)
-(* after every single transfer, MaxFaults times in total; each ends the run    *)
-(* (pc = "idle"), after which publish may be run again.                        *)
+(* every run.  Crash (the process dies), Fail (put_item raises), Refuse (the    *)
+(* store cannot create the destination file) and StoreFail (a write, the flush *)
+(* at close or the final rename of the store-side file fails) can happen       *)
+(* before, during and after every single transfer, MaxFaults times in total;   *)
+(* each ends the run (pc = "idle"), after which publish may be run again.      *)
 EXTENDS Naturals, Sequences, FiniteSets, TLC
 
 CONSTANTS Configs,     \* set of functions: image id |-> set of file names in its approved directory
@@ -132,8 +133,19 @@ Refuse == /\ pc = "put" /\ k <= Len(order)
           /\ faults' = faults + 1 /\ pc' = "idle" /\ NoRun
           /\ UNCHANGED <<files, store, loc>>
 
+\* a low-level step of the store-side write fails INSIDE put_item after the destination was opened: one of its
+\* write() calls, the flush of the buffered tail at close(), or the final rename of a temporary file (EFBIG,
+\* EDQUOT, ENOSPC, EIO ...).  put_item raises and the run ends; the item is what BeginPut left: the truncated
+\* file for the in-place store, the untouched old item (or nothing) for the atomic store.  The same relation as
+\* Fail in the middle of a transfer; a separate action because it is a separate family of fault points of the
+\* code (the harness realises it by a real RLIMIT_FSIZE at several byte limits and by a failing os.replace).
+StoreFail == /\ pc = "writing"
+             /\ faults < MaxFaults
+             /\ faults' = faults + 1 /\ pc' = "idle" /\ NoRun
+             /\ UNCHANGED <<files, store, loc>>
+
 Step == Start \/ NextImage \/ BeginPut \/ EndPut \/ Rename \/ Finish
-Next == Step \/ Crash \/ Fail \/ Refuse
+Next == Step \/ Crash \/ Fail \/ Refuse \/ StoreFail
 Spec == Init /\ [][Next]_vars /\ WF_vars(Step)
 
 \* --------------------------------------------------------------------------------------------------
